@@ -242,6 +242,41 @@ def run(ctx, rep):
                 rep.violate(sig.replace("C02:", "C03:"), f"session {si}, crash after effect {label}: {text}",
                             {"kind": "image", "committed": [[k.hex(), v.seed, v.n] for k, v in committed],
                              "puts": [[k.hex(), v.seed, v.n] for k, v in puts], "label": label, "h2": "cmt" if si % 2 else "", "reuse": reuse})
+        # ---- second crash: a recovery session (reopen for append + one SHORT put) on a torn image dies as well.
+        # Every crash image of the recovery session's own effect log (it may begin with the cut of the torn tail) must
+        # show the committed records, the complete records of the first session, and the recovery put all-or-nothing --
+        # never bytes of the old torn tail parsed as a block.
+        torn = [(lab, im) for lab, im in images if im != base_img and not (ao and len(im) in ends) and len(im) - base < 3000]
+        torn.sort(key=lambda x: -len(x[1]))
+        pick = torn[:1] + (ctx.rng.sample(torn[1:], min(len(torn) - 1, 3 if ctx.thorough else 1)) if len(torn) > 1 else [])
+        for label, img in pick:
+            open(path, "wb").write(img)
+            rlog = []
+            rput = (b"N", U.Val(41, 1))
+            try:
+                with record_effects(rlog):
+                    f = UKVFile(path, "a")
+                    f.put(rput[0], rput[1].b)
+                    f.close()
+            except Exception as e:
+                rep.violate(f"C03:recovery:raised:{type(e).__name__}", f"session {si}, image {label}: reopening for append and putting a fresh key raised {type(e).__name__}: {e}"[:300],
+                            {"kind": "image", "committed": [[k.hex(), v.seed, v.n] for k, v in committed], "puts": [[k.hex(), v.seed, v.n] for k, v in puts], "label": label, "h2": "cmt" if si % 2 else "", "reuse": False})
+                continue
+            done = [(k, v) for k, v in puts if any(kk == k for kk, _, _, _ in U.parse_file(img, base - sum(5 + len(k2) + len(v2.b) for k2, v2 in committed))[0])]
+            for lab2, img2 in crash_images(img, rlog, True):
+                for sig, text in judge_image(path + ".probe", img2, committed + done, [rput]):
+                    rep.violate(sig + ":second-crash", f"session {si}: first crash after effect {label}, recovery session (open a, put b'N') dies after its effect {lab2} "
+                                f"(file of {len(img2)} bytes): {text}",
+                                {"kind": "image2", "committed": [[k.hex(), v.seed, v.n] for k, v in committed], "puts": [[k.hex(), v.seed, v.n] for k, v in puts],
+                                 "label": label, "label2": lab2, "h2": "cmt" if si % 2 else ""})
+                d = U.drive(path + ".img", probe_ops(committed + done, [rput], False), nh=3, init_bytes=img2)
+                cases.append(U.case_coq(d, 3)); meta.append((si, label, lab2))
+                rep.count("second-crash-image")
+                rep.case(key=f"s{si}@{label}@{lab2}")
+                for sig, text in d["oracle"]:
+                    rep.violate(sig.replace("C02:", "C03:") + ":second-crash", f"session {si}, {label} then {lab2}: {text}",
+                                {"kind": "image2", "committed": [[k.hex(), v.seed, v.n] for k, v in committed], "puts": [[k.hex(), v.seed, v.n] for k, v in puts],
+                                 "label": label, "label2": lab2, "h2": "cmt" if si % 2 else ""})
     # random histories with crashes (second crash, handles reopened after a crash)
     import c02
     for r in range(2000 if ctx.thorough else 250):
@@ -302,6 +337,16 @@ def replay(ctx, data):
                 f.close()
             img = dict(crash_images(base_img, log, sum(len(e[2]) for e in log if e[0] == "w") <= 400))[data["label"]]
             extra = judge_image(path + ".probe", img, committed, puts)
+            if data.get("kind") == "image2":
+                open(path, "wb").write(img)
+                rlog, rput = [], (b"N", U.Val(41, 1))
+                with record_effects(rlog):
+                    f = UKVFile(path, "a"); f.put(rput[0], rput[1].b); f.close()
+                bof = len(base_img) - sum(5 + len(k) + len(v.b) for k, v in committed)
+                done = [(k, v) for k, v in puts if any(kk == k for kk, _, _, _ in U.parse_file(img, bof)[0])]
+                img = dict(crash_images(img, rlog, True))[data["label2"]]
+                extra = [(s_ + ":second-crash", t) for s_, t in judge_image(path + ".probe", img, committed + done, [rput])]
+                committed, puts = committed + done, [rput]
         else:
             img = open(path, "rb").read()[:base + data["offset"]]
             extra = []
